@@ -166,7 +166,9 @@ def gen_enum(rng, local):
     _serial[0] += 1
     name = "Color%d" % _serial[0]
     members = rng.choice([{"RED": 1, "GREEN": 2, "BLUE": 3}, {"A": "a", "B": "b"}, {"ZERO": 0, "ONE": 1},
-                          {"N": None, "T": True}, {"X": 1.5, "Y": -2.5}, {"E": "", "F": "é"}])
+                          {"N": None, "T": True}, {"X": 1.5, "Y": -2.5}, {"E": "", "F": "é"},
+                          # members whose value is not a JSON scalar (the Planet example of the enum documentation)
+                          {"EARTH": (5.976e+24, 6378140.0), "MARS": (6.421e+23, 3397200.0)}])
     mod = None
     if local:
         cls = enum.Enum(name, members, module="__main__")
